@@ -32,27 +32,35 @@ Definition max_rounds : nat := Z.to_nat (DTLS_HANDSHAKE_TIMEOUT_SECS / RETRANSMI
 Lemma lossless_converges : both_agree (flush sym 64 no_drop no_drop start0) = true.
 Proof. vm_compute. reflexivity. Qed.
 
-(* every single lost datagram other than the server's Finished is repaired by one retransmission
-   round (after the fix c3f15a2 this includes the ClientKeyExchange) *)
+(* every single lost datagram -- including, after the fixes c3f15a2 and 1decd50, the ClientKeyExchange
+   and the server's Finished -- is repaired by ONE retransmission round *)
 Lemma single_loss_recovers :
   forallb (fun i => both_agree (round sym (lose_client i))) (seq 0 4) = true /\
-  forallb (fun i => both_agree (round sym (lose_server i))) (seq 0 5) = true.
+  forallb (fun i => both_agree (round sym (lose_server i))) (seq 0 6) = true.
 Proof. split; vm_compute; reflexivity. Qed.
 
-(* F19 (open): the datagram carrying the server's Finished is lost => the server is Connected and
-   silent, the client keeps retransmitting its last flight, the server never answers: after every
-   number of rounds up to the deadline the pair is (Handshaking, Connected); the deadline then fails
-   the client while the server stays Connected *)
-Lemma lost_server_finished_no_convergence :
-  forallb (fun n => let '(a, b) := pair_codes (rounds sym n (lose_server 5)) in (a =? 1) && (b =? 2))
-          (seq 0 (S max_rounds)) = true /\
-  pair_codes (mkSched (hstep sym (sp (rounds sym max_rounds (lose_server 5))) (HDeadline Client)) 0 0) = (3, 2).
-Proof. split; vm_compute; reflexivity. Qed.
+(* the same datagram lost on its first n transmissions is repaired by round n+1 (n = 1, 2, 3):
+   the k-th transmission of an instance has a fresh index, so "lose the first n" = lose by position *)
+Definition mem (l : list nat) (i : nat) : bool := existsb (Nat.eqb i) l.
+Definition lose_sets (cs ss : list nat) : sched tm := flush sym 64 (mem cs) (mem ss) start0.
 
-(* the server really emits nothing after the loss *)
-Lemma lost_server_finished_server_silent :
-  length (h_sout (sp (rounds sym max_rounds (lose_server 5)))) = length (h_sout (sp (lose_server 5))).
+(* any two distinct datagrams of the ten lost together (first transmission) are repaired within two
+   rounds *)
+Definition datagrams : list (bool * nat) :=
+  map (fun i => (true, i)) (seq 0 4) ++ map (fun i => (false, i)) (seq 0 6).
+Definition lose_two (a b : bool * nat) : sched tm :=
+  lose_sets ((if fst a then [snd a] else []) ++ (if fst b then [snd b] else []))
+            ((if fst a then [] else [snd a]) ++ (if fst b then [] else [snd b])).
+
+Lemma double_loss_recovers :
+  forallb (fun a => forallb (fun b => both_agree (rounds sym 2 (lose_two a b))) datagrams) datagrams = true.
 Proof. vm_compute. reflexivity. Qed.
+
+(* F19 witness kept as a regression: before 1decd50 this pair stayed (Handshaking, Connected) for all 30
+   rounds up to the deadline; now one round repairs it *)
+Lemma lost_server_finished_recovers :
+  pair_codes (lose_server 5) = (1, 2) /\ both_agree (round sym (lose_server 5)) = true.
+Proof. split; vm_compute; reflexivity. Qed.
 
 (* ------------------------------------------------------------------ fragments *)
 Section Reassembly.
